@@ -105,6 +105,10 @@ func (t *KernMethod) TransferGovernTokens(ctx contract.KContext) (*contract.Resp
 	if !isAmount || amount.Cmp(big.NewInt(0)) == -1 {
 		return nil, fmt.Errorf("transfer gov tokens failed, parse amount error")
 	}
+	// 转给自己时sender和receiver是同一条记录, 后写的receiver余额会覆盖扣减后的sender余额, 凭空多出amount
+	if string(receiverBuf) == sender {
+		return nil, fmt.Errorf("transfer gov tokens failed, can not transfer to self")
+	}
 
 	// 查询sender余额
 	senderBalance, err := t.balanceOf(ctx, sender)
@@ -133,6 +137,12 @@ func (t *KernMethod) TransferGovernTokens(ctx contract.KContext) (*contract.Resp
 		receiverBalanceOld := &utils.GovernTokenBalance{}
 		json.Unmarshal(receiverBalanceBuf, receiverBalanceOld)
 		receiverBalance.TotalBalance.Add(receiverBalance.TotalBalance, receiverBalanceOld.TotalBalance)
+		// 保留receiver已有的锁定余额, 收到转账不能把提案/投票的锁定清零
+		for lockType, lockedAmount := range receiverBalanceOld.LockedBalance {
+			if lockedAmount != nil {
+				receiverBalance.LockedBalance[lockType] = lockedAmount
+			}
+		}
 	}
 
 	// 更新sender余额
